@@ -612,7 +612,8 @@ def rule_skips(ctx: Ctx) -> RuleResult:
             txt = f"not ({txt})"
         if txt in allowed:
             res.ok(f"FindInPaths: continue under `{txt}`", dict(SKIP_OK[q])[txt])
-        elif lab == "false" and norm(t) == "pattern in searched.get(search.type, [])":
+        elif lab == "true" and isinstance(t, ast.Compare) and len(t.ops) == 1 and isinstance(t.ops[0], ast.In) and norm(t.left) == "pattern" \
+                and _per_type(flow_of(f.node), t.comparators[0], cfg.node_of(t)):
             res.ok("FindInPaths: pattern dedupe", "per type")
         else:
             res.violation([q, "skip", txt], f"FindInPaths.star_search_simple skips a found path under `{txt}`: existing entities conforming to the "
@@ -632,14 +633,21 @@ def rule_skips(ctx: Ctx) -> RuleResult:
     for c in own_nodes(f.node):
         if isinstance(c, ast.Compare) and len(c.ops) == 1 and isinstance(c.ops[0], ast.In) and norm(c.left) == "pattern":
             cont = c.comparators[0]
-            deps = {norm(x) for x in ast.walk(cont) if isinstance(x, ast.Attribute)}
-            if "search.type" in deps:
+            if _per_type(flow_of(f.node), cont, cfg.node_of(c)):
                 res.ok("FindInPaths: searched patterns", "remembered per Sid type")
             else:
                 res.violation([q, "searched patterns", norm(cont)], "star_search_simple remembers searched glob patterns across types: two typed "
                                                                    "searches with the same pattern are globbed once and the second type's files are dropped by the "
                                                                    "type check", f.relpath, c.lineno)
     return res
+
+
+def _per_type(flow, container: ast.AST, at) -> bool:
+    """the container of already searched patterns is looked up by the type of the search"""
+    if any(isinstance(x, ast.Attribute) and norm(x) == "search.type" for x in ast.walk(container)):
+        return True
+    deps = flow.depends(container, at.id if at is not None else None)
+    return any(a.kind == "attr" and a.text == "search.type" for a in deps)
 
 
 GEN_FUNCS = {"filter", "map", "iter", "zip", "reversed", "enumerate"}
